@@ -131,7 +131,7 @@ def main():
                 res += ' - ' + m['adjudication']
                 nadj += 1
             out.append('| %s | %s | %s | %s | %s |\n' % (m['id'], m['written_for'], ', '.join(f.replace('src/', '') for f in m['files']), ', '.join(cs) if cs else 'not run', res))
-        out.append('\nTotals: %d changes (ids 01a-20c: refactorings; zz1: rename of every private name; P01a-P20c, Q01a-Q20c, U01a-U20c: three rounds of changes that keep the property they were written for but alter behaviour it does not constrain - what is refused or tolerated outside the domain, unspecified values and order, state after a failure, write and read strategies, temporary files, repeated use and the environment), %d with every selected check silent, %d with an alarm that was adjudicated as right: the change keeps the property it was written for and breaks the one whose check reports it (the reason is in the row). Every other alarm these rounds produced was a false alarm of the machinery; each was corrected in the checks, is listed in section 8, and the row shows the result of the re-run.\n\n' % (nr, ns, nadj))
+        out.append('\nTotals: %d changes (ids 01a-20c: refactorings; zz1: rename of every private name; P01a-P20c, Q01a-Q20c, U01a-U20c: three rounds of changes that keep the property they were written for but alter behaviour it does not constrain; V..: a fourth, smaller round for eight properties in which the sub-agent was told what the earlier rounds had tried and asked for the changes most likely to trip an over-strict checker - what is refused or tolerated outside the domain, unspecified values and order, state after a failure, write and read strategies, temporary files, repeated use and the environment), %d with every selected check silent, %d with an alarm that was adjudicated as right: the change keeps the property it was written for and breaks the one whose check reports it (the reason is in the row). Every other alarm these rounds produced was a false alarm of the machinery; each was corrected in the checks, is listed in section 8, and the row shows the result of the re-run.\n\n' % (nr, ns, nadj))
         rn = os.path.join(VERIF, 'mc', 'design_refactor_notes.md')
         if os.path.exists(rn):
             out.append(open(rn).read().rstrip() + '\n\n')
